@@ -7,6 +7,7 @@ import argparse, hashlib, json, os, random, sys, time, traceback
 
 from . import build
 from .props import REGISTRY
+from . import props as P
 
 ROOT = build.ROOT
 
@@ -106,7 +107,8 @@ def main():
         else:
             spec["run"](ctx)
     except Exception:
-        ctx.violation("checker crashed: " + traceback.format_exc()[-1500:],
+        tb = traceback.format_exc()
+        ctx.violation("checker crashed: " + tb.strip().splitlines()[-1][:300] + " | " + tb[-900:],
                       dict(theorem_or_correspondence="checker"), no_input=True)
     finish(ctx, spec, coq, obligations, proof_fail, evidence_path)
 
@@ -131,6 +133,8 @@ def finish(ctx, spec, coq, obligations, proof_fail, evidence_path):
         shown += 1
         rc = 1
     cov = dict(ctx.coverage)
+    if P.RETRIES:
+        cov["scenario_runs_repeated_after_a_machinery_exception"] = [list(x) for x in P.RETRIES[:20]]
     discharged = obligations if not proof_fail else 0
     cov.update(dict(
         obligations=max(obligations, 1), discharged=discharged,
